@@ -1,1 +1,78 @@
-From TT Require Import Base.Prelude.
+(* Recorded findings for C09 (findings_proposed/C09.txt).  Each theorem exhibits an input on which the faithful model
+   of ttconv/stl (and, by the correspondence run, the code) departs from the specification; the matching trigger is in
+   Model/StlTriggers.v and the `_partial` theorem in Properties/C09.v.  If this file stops compiling a finding is stale,
+   which the check reports as such (it is not a violation). *)
+From Coq Require Import QArith.
+From TT Require Import Base.Prelude Model.TimeCode Model.Iso6937 Model.StlTf Model.StlDatafile Model.StlTriggers.
+From TT Require Import Spec.Smpte12M Spec.Ebu3264Spec.
+From TT Require Import Proofs.C09.Tables Proofs.C09.TextField Proofs.C09.Times Proofs.C09.Datafile.
+Open Scope Z_scope.
+
+(* iso6937-a4: byte 0xA4 is decoded to U+00A4 (which is 0xA8), the standard has the dollar sign *)
+Theorem C09_iso6937_refuted : exists b, 0 <= b < 256 /\ decode6937 [b] = [164] /\ decode_iso6937 [b] = [36].
+Proof. exists 164. split; [lia|]. split; vm_compute; reflexivity. Qed.
+
+(* blank-row-dropped: A, empty row, B in single height is presented with one line break *)
+Theorem C09_tf_refuted : exists bs, map piece_of_leaf (tf_model (fun x => x) true bs) <> tf_spec (fun x => x) true bs.
+Proof. exact tf_blank_row_refuted. Qed.
+
+(* tf-strip-not-cut: text after a leading unused-space byte is presented *)
+Theorem C09_strip_refuted : exists tf, strip_8f tf <> text_of_field tf.
+Proof. exact strip_is_cut_refuted. Qed.
+
+(* df-23976: 00:01:00:00 at 24000/1001 is placed one frame early *)
+Theorem C09_offset_23976_refuted : exists l, valid 24 0 l /\ ~ (offset_q r23976 l == time_of (mkFR 24000 1001 24 0) l)%Q.
+Proof. exact offset23976_refuted. Qed.
+
+(* vp-zero-above-safe-area *)
+Theorem C09_region_vp_zero_refuted : exists rows tf r, region_for rows 0 tf false = Some r /\ ~ inside_safe_area (rect_of r).
+Proof. exact region_vp_zero_refuted. Qed.
+
+(* sn-identity: the same file is read into two paragraphs with subtitle number 300 and into one with 5 *)
+Theorem C09_sn_identity_refuted : exists sn file,
+  reader_model file cfg0 <> reader_gen false file cfg0 /\ paragraphs_of (reader_model file cfg0) = 2 /\
+  paragraphs_of (reader_model (witness_gsi ++ witness_tti (sn - 295) 1 2 20 0 0 [65] ++ witness_tti (sn - 295) 3 4 20 0 0 [66]) cfg0) = 1.
+Proof. exact sn_identity_refuted. Qed.
+
+(* the remaining ones are about whole files: S presents subtitles, the reader raises (or presents something else) *)
+Definition presents (file : list Z) (sc : start_cfg) (rc : rows_cfg) (n : nat) : Prop :=
+  exists g rows, presentation file sc rc = Some (g, rows) /\ length (concat g) = n.
+
+(* tcp-attribute-error: program_start_tc = TCP with a TCP field that is not a number *)
+Theorem C09_tcp_refuted : exists file,
+  presents file StartTCP RowsDefault 1 /\ reader_model file (mkConfig StTCP MrNone false false None) = Err EAttribute.
+Proof.
+  exists (put 256 [48; 48; 48; 48; 88; 88; 48; 48] witness_gsi ++ witness_tti 0 1 2 20 0 0 [65]).
+  split; [eexists; eexists; split; vm_compute; reflexivity | vm_compute; reflexivity].
+Qed.
+
+(* mnr-sets-start-offset: max_row_count = MNR, open subtitles, MNR not a number *)
+Theorem C09_mnr_refuted : exists file,
+  presents file StartNone RowsMNR 1 /\ reader_model file (mkConfig StNone MrMNR false false None) = Err EAttribute.
+Proof.
+  exists (put 11 [48] (put 253 [88; 88] witness_gsi) ++ witness_tti 0 30 31 20 0 0 [65]).
+  split; [eexists; eexists; split; vm_compute; reflexivity | vm_compute; reflexivity].
+Qed.
+
+(* cumulative-before-first: an intermediate member of a cumulative set as the first block *)
+Theorem C09_cumulative_first_refuted : exists file, reader_model file cfg0 = Err EAttribute.
+Proof. exists (witness_gsi ++ witness_tti 0 1 2 20 2 0 [65]). vm_compute. reflexivity. Qed.
+
+(* tnb-zero-division: TNB = 00000 *)
+Theorem C09_tnb_refuted : exists file, presents file StartNone RowsDefault 1 /\ reader_model file cfg0 = Err EZeroDiv.
+Proof.
+  exists (put 238 [48; 48; 48; 48; 48] witness_gsi ++ witness_tti 0 1 2 20 0 0 [65]).
+  split; [eexists; eexists; split; vm_compute; reflexivity | vm_compute; reflexivity].
+Qed.
+
+(* comment-flag-ignored: a block whose comment flag is set is presented *)
+Theorem C09_comment_refuted : exists file, presents file StartNone RowsDefault 0 /\ paragraphs_of (reader_model file cfg0) = 1.
+Proof.
+  exists (witness_gsi ++ witness_tti 0 1 2 20 0 1 [65]).
+  split; [eexists; eexists; split; vm_compute; reflexivity | vm_compute; reflexivity].
+Qed.
+
+Print Assumptions C09_iso6937_refuted.  Print Assumptions C09_tf_refuted.  Print Assumptions C09_strip_refuted.
+Print Assumptions C09_offset_23976_refuted.  Print Assumptions C09_region_vp_zero_refuted.  Print Assumptions C09_sn_identity_refuted.
+Print Assumptions C09_tcp_refuted.  Print Assumptions C09_mnr_refuted.  Print Assumptions C09_cumulative_first_refuted.
+Print Assumptions C09_tnb_refuted.  Print Assumptions C09_comment_refuted.
